@@ -259,4 +259,14 @@ Proof.
       cbn [deliveries_from]. rewrite Ho, Z.add_0_l. reflexivity.
 Qed.
 
+Corollary damage_detected_objects : forall (good : list (frame T)) bad rest avail,
+  valid_file good = true ->
+  damaged (match good with [] => true | _ => false end) bad (avail - total_size good) = true ->
+  objects (scan current (good ++ bad :: rest) avail) = objs_of good /\
+  out (scan current (good ++ bad :: rest) avail) = Failed.
+Proof.
+  intros good bad rest avail Hv Hd. rewrite (damage_detected good bad rest avail Hv Hd).
+  split; [exact (objs_spec_deliveries good Hv)|reflexivity].
+Qed.
+
 End Damage.
